@@ -187,10 +187,10 @@ theorem fsum_cond_eq_bucket (A : AggType) (q : Query) (fam tLo tHi lo hi t : Nat
 
 /-! ### well-formedness of all calls -/
 
-theorem memCalls_wf (s : Shard) (q : Query) (A : AggType) (md : MemDB) (fam : Nat) (group : List Nat) :
-    ∀ c ∈ memCalls s q [A] md fam group, WF1 A c := by
+theorem memCallsR_wf (q : Query) (A : AggType) (pages : List (PageKey × Buf)) (rng : Option (Nat × Nat))
+    (fam : Nat) (group : List Nat) : ∀ c ∈ memCallsR q [A] pages rng fam group, WF1 A c := by
   intro c hc
-  unfold memCalls at hc
+  unfold memCallsR at hc
   split at hc
   · split at hc
     · rw [List.mem_flatMap] at hc
@@ -200,6 +200,10 @@ theorem memCalls_wf (s : Shard) (q : Query) (A : AggType) (md : MemDB) (fam : Na
       · exact pageCalls_wf A _ _ _ _ _ _ _ _ c hser
     · simp at hc
   · simp at hc
+
+theorem memCalls_wf (s : Shard) (q : Query) (A : AggType) (md : MemDB) (fam : Nat) (group : List Nat) :
+    ∀ c ∈ memCalls s q [A] md fam group, WF1 A c :=
+  memCallsR_wf q A md.pages _ fam group
 
 theorem fileCalls_wf (s : Shard) (q : Query) (sc : Scope) (A : AggType) (blk : Block) (fam : Nat) (group : List Nat) :
     ∀ c ∈ fileCalls s q sc [A] blk fam group, WF1 A c := by
@@ -295,20 +299,21 @@ theorem famBucket_none (A : AggType) (q : Query) (fam t : Nat) (group : List Nat
   · simp [hb, h ser slot hs hb]
   · simp [hb]
 
-/-- the memory database's calls = bucket fold of `pageView`. -/
-theorem memCalls_fsum (s : Shard) (pts : List Point) (hinv : Inv s pts) (q : Query) (hspf : 0 < q.spf)
-    (hc : AggComm (s.fieldAgg q.field)) (fam : Nat) (md : MemDB) (hm : (s.family fam).mutable_ = some md)
-    (group : List Nat) (t : Nat) :
-    fsum (s.fieldAgg q.field) (memCalls s q [s.fieldAgg q.field] md fam group) (fun c => arrGet c (s.fieldAgg q.field) t) =
-      famBucket (s.fieldAgg q.field) q fam t group (fun ser slot => pageView s fam ser q.field slot) := by
-  obtain ⟨lo, hi, hr, hb⟩ := hinv.pages fam md hm
-  have hpv : ∀ ser slot, pageView s fam ser q.field slot =
-      (match Map.lookup md.pages (ser, q.field) with
-        | none => none
-        | some b => memView (s.fieldAgg q.field) b slot) := by
-    intro ser slot; simp only [pageView, hm]; rfl
-  unfold memCalls
-  rw [hr]
+/-- what the pages of a memory database hold for (series, field `q.field`, slot). -/
+def pagesView (A : AggType) (pages : List (PageKey × Buf)) (fld ser slot : Nat) : Option Int :=
+  match Map.lookup pages (ser, fld) with
+  | none => none
+  | some b => memView A b slot
+
+/-- a memory database's calls = bucket fold of its pages' views (`[lo, hi]` covers the pages). -/
+theorem memCallsR_fsum {w : Nat} (A : AggType) (hc : AggComm A) (q : Query) (hspf : 0 < q.spf)
+    (pages : List (PageKey × Buf)) (lo hi : Nat)
+    (hb : ∀ ser b, Map.lookup pages (ser, q.field) = some b →
+      BufInv w b ∧ ∀ t, memView A b t ≠ none → lo ≤ t ∧ t ≤ hi)
+    (fam : Nat) (group : List Nat) (t : Nat) :
+    fsum A (memCallsR q [A] pages (some (lo, hi)) fam group) (fun c => arrGet c A t) =
+      famBucket A q fam t group (fun ser slot => pagesView A pages q.field ser slot) := by
+  unfold memCallsR
   cases ht : familyTarget q fam with
   | none =>
     simp only [fsum_nil]
@@ -326,38 +331,60 @@ theorem memCalls_fsum (s : Shard) (pts : List Point) (hinv : Inv s pts) (q : Que
       unfold famBucket
       apply fsum_congr
       intro ser _
-      cases hp : Map.lookup md.pages (ser, q.field) with
+      cases hp : Map.lookup pages (ser, q.field) with
       | none =>
         simp only [fsum_nil]
         symm
         apply fsum_all_none
         intro slot _
-        rw [hpv, hp]; simp
+        simp [pagesView, hp]
       | some b =>
         simp only
-        obtain ⟨hbi, hbc⟩ := hb (ser, q.field) b hp
+        obtain ⟨hbi, hbc⟩ := hb ser b hp
         rw [pageCalls_fsum hc b hbi]
-        rw [fsum_cond_eq_bucket _ q fam tLo tHi lo hi t (memView (s.fieldAgg q.field) b) ht hspf
+        rw [fsum_cond_eq_bucket _ q fam tLo tHi lo hi t (memView A b) ht hspf
           (fun s' _ _ hne => hbc s' hne)]
         apply fsum_congr
         intro slot _
-        rw [hpv, hp]
+        simp [pagesView, hp]
     · simp only [hov, Bool.false_eq_true, if_false, fsum_nil]
       symm
       apply famBucket_none
       intro ser slot hs hbk
-      rw [hpv]
-      cases hp : Map.lookup md.pages (ser, q.field) with
+      unfold pagesView
+      cases hp : Map.lookup pages (ser, q.field) with
       | none => rfl
       | some b =>
         simp only
-        cases hv : memView (s.fieldAgg q.field) b slot with
+        cases hv : memView A b slot with
         | none => rfl
         | some x =>
           exfalso
-          obtain ⟨h1, h2⟩ := (hb (ser, q.field) b hp).2 slot (by simp [hv])
+          obtain ⟨h1, h2⟩ := (hb ser b hp).2 slot (by simp [hv])
           have := (cond_iff_bucketOf q fam tLo tHi slot t ht hs).mpr hbk
           exact hov (overlap_of_common lo hi tLo tHi slot h1 h2 this.1 this.2.1)
+
+theorem pageView_eq_pagesView (s : Shard) (fam : Nat) (md : MemDB) (hm : (s.family fam).mutable_ = some md)
+    (ser fld slot : Nat) : pageView s fam ser fld slot = pagesView (s.fieldAgg fld) md.pages fld ser slot := by
+  simp only [pageView, hm, pagesView]
+  rfl
+
+/-- the memory database's calls = bucket fold of `pageView`. -/
+theorem memCalls_fsum (s : Shard) (pts : List Point) (hinv : Inv s pts) (q : Query) (hspf : 0 < q.spf)
+    (hc : AggComm (s.fieldAgg q.field)) (fam : Nat) (md : MemDB) (hm : (s.family fam).mutable_ = some md)
+    (group : List Nat) (t : Nat) :
+    fsum (s.fieldAgg q.field) (memCalls s q [s.fieldAgg q.field] md fam group) (fun c => arrGet c (s.fieldAgg q.field) t) =
+      famBucket (s.fieldAgg q.field) q fam t group (fun ser slot => pageView s fam ser q.field slot) := by
+  obtain ⟨lo, hi, hr, hb⟩ := hinv.pages fam md hm
+  unfold memCalls
+  rw [hr, memCallsR_fsum (w := s.window) _ hc q hspf md.pages lo hi
+    (fun ser b hp => hb (ser, q.field) b hp) fam group t]
+  unfold famBucket
+  apply fsum_congr
+  intro ser _
+  apply fsum_congr
+  intro slot _
+  simp only [pageView_eq_pagesView s fam md hm]
 
 theorem cell_range (blk : Block) (k : PageKey) (slot : Nat) (h : blk.cell k slot ≠ none) :
     blk.lo ≤ slot ∧ slot ≤ blk.hi := by
@@ -743,15 +770,16 @@ from all selected fields and all series that satisfy the condition). -/
 def ScopeOK (q : Query) (sc : Scope) (group : List Nat) : Prop :=
   q.field ∈ sc.fields ∧ ∀ ser ∈ group, ser ∈ sc.series
 
-theorem memCalls_nil_of_filter_false (s : Shard) (q : Query) (sc : Scope) (L : List AggType) (md : MemDB) (fam : Nat)
-    (group : List Nat) (h : memFilter s q sc md fam = some false) : memCalls s q L md fam group = [] := by
-  unfold memFilter at h
-  unfold memCalls
+theorem memCallsR_nil_of_filter_false (known : List Nat) (q : Query) (sc : Scope) (L : List AggType)
+    (pages : List (PageKey × Buf)) (rng : Option (Nat × Nat)) (fam : Nat) (group : List Nat)
+    (h : memFilterR known q sc pages rng fam = some false) : memCallsR q L pages rng fam group = [] := by
+  unfold memFilterR at h
+  unfold memCallsR
   cases ht : familyTarget q fam with
   | none => rfl
   | some tr =>
     obtain ⟨tLo, tHi⟩ := tr
-    cases hr : Map.lookup s.ranges md.created with
+    cases hr : rng with
     | none => rfl
     | some rg =>
       obtain ⟨lo, hi⟩ := rg
@@ -764,43 +792,54 @@ theorem memCalls_nil_of_filter_false (s : Shard) (q : Query) (sc : Scope) (L : L
         · split at h <;> cases h
       · simp [hov]
 
-/-- a memory database whose filter answers not-found holds nothing for the group and the field. -/
-theorem pageView_none_of_filter_none (s : Shard) (h2 : Inv2 s) (q : Query) (sc : Scope) (group : List Nat)
-    (hsc : ScopeOK q sc group) (fam : Nat) (md : MemDB) (hm : (s.family fam).mutable_ = some md)
-    (hf : memFilter s q sc md fam = none) (ser : Nat) (hser : ser ∈ group) (slot : Nat) :
-    pageView s fam ser q.field slot = none := by
-  unfold pageView
-  rw [hm]
-  simp only
-  cases hp : Map.lookup md.pages (ser, q.field) with
+theorem memCalls_nil_of_filter_false (s : Shard) (q : Query) (sc : Scope) (L : List AggType) (md : MemDB) (fam : Nat)
+    (group : List Nat) (h : memFilter s q sc md fam = some false) : memCalls s q L md fam group = [] :=
+  memCallsR_nil_of_filter_false s.known q sc L md.pages _ fam group h
+
+/-- pages whose filter answers not-found hold nothing for the group and the field. -/
+theorem pagesView_none_of_filter_none (A : AggType) (known : List Nat) (q : Query) (sc : Scope) (group : List Nat)
+    (hsc : q.field ∈ sc.fields ∧ ∀ ser ∈ group, ser ∈ sc.series)
+    (pages : List (PageKey × Buf)) (hk : ∀ k b, Map.lookup pages k = some b → k.1 ∈ known)
+    (rng : Option (Nat × Nat)) (fam : Nat)
+    (hf : memFilterR known q sc pages rng fam = none) (ser : Nat) (hser : ser ∈ group) (slot : Nat) :
+    pagesView A pages q.field ser slot = none := by
+  unfold pagesView
+  cases hp : Map.lookup pages (ser, q.field) with
   | none => rfl
   | some b =>
     exfalso
-    unfold memFilter at hf
+    unfold memFilterR at hf
     split at hf
     · split at hf
       · split at hf
-        · -- no page of a selected field
-          rename_i hnf
-          have hmem := mem_of_lookup md.pages (ser, q.field) b hp
-          have : (sc.fields.any fun f => md.pages.any fun (p : PageKey × Buf) => decide (p.1.2 = f)) = true := by
+        · rename_i hnf
+          have hmem := mem_of_lookup pages (ser, q.field) b hp
+          have : (sc.fields.any fun f => pages.any fun (p : PageKey × Buf) => decide (p.1.2 = f)) = true := by
             rw [List.any_eq_true]
             refine ⟨q.field, hsc.1, ?_⟩
             rw [List.any_eq_true]
             exact ⟨((ser, q.field), b), hmem, by simp⟩
           simp [this] at hnf
         · split at hf
-          · -- no selected series known
-            rename_i hns
-            have hk := h2.known fam md (ser, q.field) b hm hp
-            have : (sc.series.any fun x => s.known.contains x) = true := by
+          · rename_i hns
+            have hk' := hk (ser, q.field) b hp
+            have : (sc.series.any fun x => known.contains x) = true := by
               rw [List.any_eq_true]
-              exact ⟨ser, hsc.2 ser hser, by simpa using hk⟩
+              exact ⟨ser, hsc.2 ser hser, by simpa using hk'⟩
             rw [this] at hns
             simp at hns
           · cases hf
       · cases hf
     · cases hf
+
+/-- a memory database whose filter answers not-found holds nothing for the group and the field. -/
+theorem pageView_none_of_filter_none (s : Shard) (h2 : Inv2 s) (q : Query) (sc : Scope) (group : List Nat)
+    (hsc : ScopeOK q sc group) (fam : Nat) (md : MemDB) (hm : (s.family fam).mutable_ = some md)
+    (hf : memFilter s q sc md fam = none) (ser : Nat) (hser : ser ∈ group) (slot : Nat) :
+    pageView s fam ser q.field slot = none := by
+  rw [pageView_eq_pagesView s fam md hm]
+  exact pagesView_none_of_filter_none _ s.known q sc group hsc md.pages
+    (fun k b hk => h2.known fam md k b hm hk) _ fam hf ser hser slot
 
 theorem memResult_fsum (s : Shard) (pts : List Point) (hinv : Inv s pts) (h2 : Inv2 s) (q : Query) (sc : Scope)
     (hspf : 0 < q.spf) (hc : AggComm (s.fieldAgg q.field)) (fam : Nat) (group : List Nat)
@@ -1041,5 +1080,301 @@ theorem naiveBucket_eq_fsum (q : Query) (ps : List Point) (group fams : List Nat
     exact hin ser acc
   rw [this, foldl_ocomb_acc]
   simp
+
+/-! ### a flush in progress -/
+
+/-- the overlapping ones of a list of readers. -/
+def overlapOf (q : Query) (fam : Nat) (rs : List Block) : List Block :=
+  match familyTarget q fam with
+  | some (tLo, tHi) => rs.filter (fun (blk : Block) => overlap blk.lo blk.hi tLo tHi)
+  | none => []
+
+/-- the calls of the matching overlapping ones of some of the family's readers = the bucket folds
+of all of them. -/
+theorem readersCalls_fsum (s : Shard) (pts : List Point) (hinv : Inv s pts) (h2 : Inv2 s) (q : Query) (sc : Scope)
+    (hspf : 0 < q.spf) (fam : Nat) (group : List Nat) (hsc : ScopeOK q sc group) (t : Nat)
+    (rs : List Block) (hsubr : ∀ blk ∈ rs, blk ∈ (s.family fam).readers) :
+    fsum (s.fieldAgg q.field) ((overlapOf q fam rs).filter (blockMatches sc))
+      (fun blk => fsum (s.fieldAgg q.field) (fileCalls s q sc [s.fieldAgg q.field] blk fam group)
+        (fun c => arrGet c (s.fieldAgg q.field) t)) =
+    fsum (s.fieldAgg q.field) rs
+      (fun blk => famBucket (s.fieldAgg q.field) q fam t group (fun ser slot => blk.cell (ser, q.field) slot)) := by
+  have hsub : ∀ blk ∈ overlapOf q fam rs, blk ∈ (s.family fam).readers := by
+    intro blk hb
+    unfold overlapOf at hb
+    cases ht : familyTarget q fam with
+    | none => rw [ht] at hb; simp at hb
+    | some tr =>
+      obtain ⟨tLo, tHi⟩ := tr
+      rw [ht] at hb
+      simp only at hb
+      exact hsubr blk (List.mem_filter.mp hb).1
+  have h1 : fsum (s.fieldAgg q.field) ((overlapOf q fam rs).filter (blockMatches sc))
+      (fun blk => fsum (s.fieldAgg q.field) (fileCalls s q sc [s.fieldAgg q.field] blk fam group)
+        (fun c => arrGet c (s.fieldAgg q.field) t)) =
+      fsum (s.fieldAgg q.field) ((overlapOf q fam rs).filter (blockMatches sc))
+        (fun blk => famBucket (s.fieldAgg q.field) q fam t group (fun ser slot => blk.cell (ser, q.field) slot)) := by
+    apply fsum_congr
+    intro blk hb
+    exact fileCalls_fsum_any s pts hinv h2 q sc _ hspf fam blk (hsub blk (List.mem_filter.mp hb).1) group t
+  rw [h1]
+  rw [fsum_filter _ _ (blockMatches sc) _ (by
+    intro blk hb hnm
+    have hbr := hsub blk hb
+    unfold famBucket
+    apply fsum_all_none
+    intro ser hser
+    apply fsum_all_none
+    intro slot _
+    have hcell : blk.cell (ser, q.field) slot = none := by
+      unfold Block.cell
+      cases hp : Map.lookup blk.pages (ser, q.field) with
+      | none => rfl
+      | some cells =>
+        exfalso
+        obtain ⟨hf, hs⟩ := h2.blocks fam blk hbr (ser, q.field) (mem_keys_of_lookup_some blk.pages _ cells hp)
+        have hmatch : blockMatches sc blk = true := by
+          unfold blockMatches
+          rw [Bool.and_eq_true, List.any_eq_true, List.any_eq_true]
+          exact ⟨⟨q.field, hsc.1, by simpa using hf⟩, ⟨ser, hsc.2 ser hser, by simpa using hs⟩⟩
+        rw [hmatch] at hnm
+        cases hnm
+    simp [hcell])]
+  unfold overlapOf
+  cases ht : familyTarget q fam with
+  | none =>
+    simp only [fsum_nil]
+    symm
+    apply fsum_all_none
+    intro blk _
+    apply famBucket_none
+    intro ser slot hs hbk
+    rw [bucketOf_none_of_target_none q fam slot ht hs] at hbk
+    cases hbk
+  | some tr =>
+    obtain ⟨tLo, tHi⟩ := tr
+    simp only
+    apply fsum_filter
+    intro blk _ hov
+    exact block_nonoverlap_none _ q fam tLo tHi t blk group q.field ht hov
+
+/-- the immutable memory database's result sets = bucket fold of its pages' views. -/
+theorem immResult_fsum {w : Nat} (s : Shard) (hcfg : s.cfg = Cfg.fixed) (q : Query) (sc : Scope) (hspf : 0 < q.spf)
+    (hc : AggComm (s.fieldAgg q.field)) (W : Window) (lo hi : Nat) (hrng : W.rng = some (lo, hi))
+    (hb : ∀ ser b, Map.lookup W.imm.pages (ser, q.field) = some b →
+      BufInv w b ∧ ∀ t, memView (s.fieldAgg q.field) b t ≠ none → lo ≤ t ∧ t ≤ hi)
+    (hk : ∀ k b, Map.lookup W.imm.pages k = some b → k.1 ∈ s.known)
+    (group : List Nat) (hsc : ScopeOK q sc group) (t : Nat) :
+    ∃ imm, immResult s q sc [s.fieldAgg q.field] W group = some imm ∧
+      (∀ c ∈ imm, WF1 (s.fieldAgg q.field) c) ∧
+      fsum (s.fieldAgg q.field) imm (fun c => arrGet c (s.fieldAgg q.field) t) =
+        famBucket (s.fieldAgg q.field) q W.fam t group
+          (fun ser slot => pagesView (s.fieldAgg q.field) W.imm.pages q.field ser slot) := by
+  unfold immResult
+  cases hf : memFilterR s.known q sc W.imm.pages W.rng W.fam with
+  | none =>
+    have hni : s.cfg.notFoundIgnored = true := by rw [hcfg]; rfl
+    simp only [hni, if_true]
+    refine ⟨[], rfl, by simp, ?_⟩
+    simp only [fsum_nil]
+    symm
+    unfold famBucket
+    apply fsum_all_none
+    intro ser hser
+    apply fsum_all_none
+    intro slot _
+    have := pagesView_none_of_filter_none (s.fieldAgg q.field) s.known q sc group hsc W.imm.pages hk W.rng W.fam hf ser hser slot
+    simp [this]
+  | some bb =>
+    cases bb with
+    | true =>
+      refine ⟨_, rfl, memCallsR_wf q _ W.imm.pages W.rng W.fam group, ?_⟩
+      rw [hrng]
+      exact memCallsR_fsum (w := w) _ hc q hspf W.imm.pages lo hi hb W.fam group t
+    | false =>
+      refine ⟨[], rfl, by simp, ?_⟩
+      have hnil := memCallsR_nil_of_filter_false s.known q sc [s.fieldAgg q.field] W.imm.pages W.rng W.fam group hf
+      rw [← memCallsR_fsum (w := w) _ hc q hspf W.imm.pages lo hi hb W.fam group t, ← hrng, hnil]
+
+/-- the family that is being flushed: its calls in the window = the bucket fold of the shard's
+abstraction once the file is committed. `blk` is the block being written (the last level-0 file
+of the completed state), whose cells are the immutable memory database's views. -/
+theorem familyCallsW_fsum {w : Nat} (s : Shard) (pts : List Point) (hinv : Inv s pts) (h2 : Inv2 s) (q : Query)
+    (sc : Scope) (hspf : 0 < q.spf) (hc : AggComm (s.fieldAgg q.field)) (W : Window) (lo hi : Nat)
+    (hrng : W.rng = some (lo, hi))
+    (hb : ∀ ser b, Map.lookup W.imm.pages (ser, q.field) = some b →
+      BufInv w b ∧ ∀ t, memView (s.fieldAgg q.field) b t ≠ none → lo ≤ t ∧ t ≤ hi)
+    (hk : ∀ k b, Map.lookup W.imm.pages k = some b → k.1 ∈ s.known)
+    (fs : List Block) (blk : Block) (hfiles : (s.family W.fam).files = fs ++ [blk])
+    (hblk : ∀ ser slot, blk.cell (ser, q.field) slot = pagesView (s.fieldAgg q.field) W.imm.pages q.field ser slot)
+    (group : List Nat) (hsc : ScopeOK q sc group) (t : Nat) :
+    (∀ c ∈ familyCallsW s q sc [s.fieldAgg q.field] W group, WF1 (s.fieldAgg q.field) c) ∧
+    fsum (s.fieldAgg q.field) (familyCallsW s q sc [s.fieldAgg q.field] W group)
+        (fun c => arrGet c (s.fieldAgg q.field) t) =
+      famBucket (s.fieldAgg q.field) q W.fam t group (fun ser slot => storeView s W.fam ser q.field slot) := by
+  obtain ⟨mem, hmemEq, hmemSum⟩ := memResult_fsum s pts hinv h2 q sc hspf hc W.fam group hsc t
+  obtain ⟨imm, himmEq, himmWF, himmSum⟩ := immResult_fsum (w := w) s hinv.cfgFixed q sc hspf hc W lo hi hrng hb hk group hsc t
+  have hni : s.cfg.notFoundIgnored = true := by rw [hinv.cfgFixed]; rfl
+  have hmemWF := memResult_wf s q sc (s.fieldAgg q.field) W.fam group mem hmemEq
+  -- the committed readers
+  have hrs : windowReaders s q W.fam = overlapOf q W.fam (fs ++ (match (s.family W.fam).base with | some b => [b] | none => [])) := by
+    unfold windowReaders overlapOf
+    simp only [Family.readers, hfiles, List.dropLast_concat]
+    cases familyTarget q W.fam with
+    | none => rfl
+    | some tr => rfl
+  have hsubr : ∀ b' ∈ fs ++ (match (s.family W.fam).base with | some b => [b] | none => []), b' ∈ (s.family W.fam).readers := by
+    intro b' hb'
+    simp only [Family.readers, hfiles, List.mem_append] at hb' ⊢
+    rcases hb' with h | h
+    · exact Or.inl (Or.inl h)
+    · exact Or.inr h
+  unfold familyCallsW
+  rw [hmemEq, himmEq, hni]
+  simp only
+  constructor
+  · intro c hcm
+    unfold combineCalls at hcm
+    have hmi : ∀ c ∈ mem ++ imm, WF1 (s.fieldAgg q.field) c := by
+      intro c hc'
+      rcases List.mem_append.mp hc' with h | h
+      · exact hmemWF c h
+      · exact himmWF c h
+    split at hcm
+    · exact hmi c hcm
+    · split at hcm
+      · simp only [if_true] at hcm; exact hmi c hcm
+      · rcases List.mem_append.mp hcm with h | h
+        · exact hmi c h
+        · rw [List.mem_flatMap] at h
+          obtain ⟨b', _, hb'⟩ := h
+          exact fileCalls_wf s q sc _ b' W.fam group c hb'
+  · rw [combineCalls_fsum, fsum_append, hmemSum, himmSum, hrs,
+      readersCalls_fsum s pts hinv h2 q sc hspf W.fam group hsc t _ hsubr]
+    rw [famBucket_fsum hc, famBucket_add hc, famBucket_add hc]
+    apply famBucket_congr
+    intro ser slot _ _
+    unfold storeView
+    rw [filesView_eq_fsum]
+    simp only [Family.chron, hfiles]
+    rw [← List.append_assoc, fsum_append, fsum_append, fsum_append]
+    simp only [fsum_cons, fsum_nil, ocomb_none_right]
+    rw [hblk ser slot]
+    -- rearrange: (page ⊕ imm) ⊕ (fs ⊕ base)  =  ((base ⊕ fs) ⊕ imm) ⊕ page
+    generalize pageView s W.fam ser q.field slot = P
+    generalize pagesView (s.fieldAgg q.field) W.imm.pages q.field ser slot = I
+    generalize fsum (s.fieldAgg q.field) fs (fun b' => b'.cell (ser, q.field) slot) = F
+    generalize fsum (s.fieldAgg q.field) (match (s.family W.fam).base with | some b => [b] | none => [])
+      (fun b' => b'.cell (ser, q.field) slot) = B
+    rw [ocomb_comm hc (ocomb (s.fieldAgg q.field) (ocomb (s.fieldAgg q.field) B F) I) P]
+    rw [ocomb_comm hc B F, ocomb_assoc, ocomb_comm hc I (ocomb (s.fieldAgg q.field) F B)]
+
+def Op.isWrite : Op → Bool
+  | .write .. => true
+  | _ => false
+
+theorem runOps_append (s : Shard) (a b : List Op) : runOps s (a ++ b) = runOps (runOps s a) b := by
+  simp [runOps, List.foldl_append]
+
+theorem goodOps_append : ∀ (a b : List Op) (s : Shard),
+    goodOps s (a ++ b) = (goodOps s a && goodOps (runOps s a) b) := by
+  intro a
+  induction a with
+  | nil => intro b s; simp [goodOps, runOps]
+  | cons x rest ih =>
+    intro b s
+    simp only [List.cons_append, goodOps, ih, runOps, List.foldl_cons, Bool.and_assoc]
+
+/-- writes leave the files of every family alone and only add to the known series. -/
+theorem writes_keep_files : ∀ (during : List Op) (s : Shard), (∀ op ∈ during, Op.isWrite op = true) →
+    (∀ fam, ((runOps s during).family fam).files = (s.family fam).files ∧
+            ((runOps s during).family fam).base = (s.family fam).base) ∧
+    (∀ x, x ∈ s.known → x ∈ (runOps s during).known) := by
+  intro during
+  induction during with
+  | nil => intro s _; exact ⟨fun _ => ⟨rfl, rfl⟩, fun _ h => h⟩
+  | cons op rest ih =>
+    intro s hall
+    have hop := hall op (by simp)
+    cases op with
+    | write tick fam ser fld ft slot v =>
+      obtain ⟨h1, h2⟩ := ih (s.write tick fam ser fld ft slot v) (fun o ho => hall o (by simp [ho]))
+      simp only [runOps, List.foldl_cons, applyOp] at h1 h2 ⊢
+      constructor
+      · intro fam2
+        obtain ⟨a, b⟩ := h1 fam2
+        rw [a, b]
+        by_cases hf : fam = fam2
+        · subst hf; rw [write_family_self]; exact ⟨rfl, rfl⟩
+        · rw [write_family_ne s tick fam ser fld ft slot v fam2 hf]; exact ⟨rfl, rfl⟩
+      · intro x hx
+        exact h2 x (write_known_mono s tick fam ser fld ft slot v x (Or.inl hx))
+    | flush fam => simp [Op.isWrite] at hop
+    | compact fam => simp [Op.isWrite] at hop
+    | reopen => simp [Op.isWrite] at hop
+
+/-- the cells of the block a flush writes are the views of the flushed pages. -/
+theorem flushBlock_cell (s : Shard) (hcfg : s.cfg = Cfg.fixed) (md : MemDB) (lo hi : Nat)
+    (hr : Map.lookup s.ranges md.created = some (lo, hi))
+    (hb : ∀ k b, Map.lookup md.pages k = some b →
+      BufInv s.window b ∧ ∀ t, memView (s.fieldAgg k.2) b t ≠ none → lo ≤ t ∧ t ≤ hi)
+    (blk : Block) (hblk : flushMemDB s md = some blk) (ser fld slot : Nat) :
+    blk.cell (ser, fld) slot = pagesView (s.fieldAgg fld) md.pages fld ser slot := by
+  have hfc : flushCellsV s.cfg = flushCells := by rw [hcfg]; exact flushCellsV_fixed Cfg.fixed rfl
+  simp only [flushMemDB, hr, hfc, Option.some.injEq] at hblk
+  subst hblk
+  unfold Block.cell pagesView
+  simp only
+  rw [lookup_map_val md.pages (fun k b => flushCells (s.fieldAgg k.2) b lo hi) (ser, fld)]
+  cases hp : Map.lookup md.pages (ser, fld) with
+  | none => rfl
+  | some b =>
+    simp only [Option.map_some]
+    obtain ⟨hbi, hbc⟩ := hb (ser, fld) b hp
+    exact flushCell_eq_memView (s.fieldAgg fld) hbi lo hi slot hbc
+
+theorem leafGroupW_eq_fsum {w : Nat} (s : Shard) (pts : List Point) (hinv : Inv s pts) (h2 : Inv2 s) (q : Query)
+    (sc : Scope) (hspf : 0 < q.spf) (hc : AggComm (s.fieldAgg q.field)) (W : Window) (lo hi : Nat)
+    (hrng : W.rng = some (lo, hi))
+    (hb : ∀ ser b, Map.lookup W.imm.pages (ser, q.field) = some b →
+      BufInv w b ∧ ∀ t, memView (s.fieldAgg q.field) b t ≠ none → lo ≤ t ∧ t ≤ hi)
+    (hk : ∀ k b, Map.lookup W.imm.pages k = some b → k.1 ∈ s.known)
+    (fs : List Block) (blk : Block) (hfiles : (s.family W.fam).files = fs ++ [blk])
+    (hblk : ∀ ser slot, blk.cell (ser, q.field) slot = pagesView (s.fieldAgg q.field) W.imm.pages q.field ser slot)
+    (fams group : List Nat) (hsc : ScopeOK q sc group) (t : Nat) :
+    arrGet (leafGroupW s q sc [s.fieldAgg q.field] W fams group) (s.fieldAgg q.field) t =
+      fsum (s.fieldAgg q.field) group (fun ser => fsum (s.fieldAgg q.field) fams (fun fam =>
+        fsum (s.fieldAgg q.field) (List.range q.spf) (fun slot =>
+          if bucketOf q fam slot = some t then storeView s fam ser q.field slot else none))) := by
+  have hW := familyCallsW_fsum (w := w) s pts hinv h2 q sc hspf hc W lo hi hrng hb hk fs blk hfiles hblk group hsc
+  unfold leafGroupW
+  have hab : s.cfg.aggregateByType = true := by rw [hinv.cfgFixed]; rfl
+  rw [hab]
+  simp only [if_true]
+  rw [reduce_spec _ _ (by
+    intro c hcm
+    rw [List.mem_flatMap] at hcm
+    obtain ⟨fam, _, hf⟩ := hcm
+    split at hf
+    · exact (hW t).1 c hf
+    · exact familyCalls_wf s q sc _ fam group c hf) t]
+  rw [fsum_flatMap]
+  have h1 : fsum (s.fieldAgg q.field) fams (fun fam =>
+      fsum (s.fieldAgg q.field)
+        (if fam = W.fam then familyCallsW s q sc [s.fieldAgg q.field] W group
+          else familyCalls s q sc [s.fieldAgg q.field] fam group)
+        (fun c => arrGet c (s.fieldAgg q.field) t)) =
+      fsum (s.fieldAgg q.field) fams (fun fam =>
+        famBucket (s.fieldAgg q.field) q fam t group (fun ser slot => storeView s fam ser q.field slot)) := by
+    apply fsum_congr
+    intro fam _
+    by_cases hf : fam = W.fam
+    · simp only [hf, if_true]
+      exact (hW t).2
+    · simp only [hf, if_false]
+      exact familyCalls_fsum s pts hinv h2 q sc hspf hc fam group hsc t
+  rw [h1]
+  unfold famBucket
+  exact fsum_swap hc fams group _
 
 end LinVerif.Lemmas.C11
